@@ -20,6 +20,7 @@ VERIF_DIR = os.path.dirname(os.path.dirname(os.path.abspath(__file__)))
 REPO = os.environ.get('PYPRISM_REPO', '/repo')
 MAX_VIOL_KEPT = 200          # violation records kept per Rec (all are counted)
 MAX_SAMPLES = 6
+PER_SIG = 4                  # records kept per distinct tag signature (classification is by tags)
 
 
 class HarnessError(Exception):
@@ -98,7 +99,8 @@ class Rec(object):
         self.c = {}                 # named counters
         self.outcomes = set()       # digests of distinct non-trivial outcomes
         self.samples = []
-        self.viols = []             # dicts: case,msg,tags,detail
+        self.viols = []             # dicts: case,msg,tags,detail (at most PER_SIG per tag signature)
+        self.sigs = {}              # tag signature -> number of violations with these tags
         self.nviol = 0
         self.notes = {}             # free-form evidence extras (last writer wins)
 
@@ -132,7 +134,9 @@ class Rec(object):
     # violations ----------------------------------------------------------
     def fail(self, case, msg, tags=None, detail=None, repro=None):
         self.nviol += 1
-        if len(self.viols) < MAX_VIOL_KEPT:
+        sig = jdump(tags or {})
+        self.sigs[sig] = self.sigs.get(sig, 0) + 1
+        if self.sigs[sig] <= PER_SIG and (len(self.viols) < MAX_VIOL_KEPT or self.sigs[sig] == 1):
             self.viols.append({'case': _jsonable(case), 'msg': str(msg),
                                'tags': _jsonable(tags or {}),
                                'detail': _jsonable(detail or {}),
@@ -141,7 +145,7 @@ class Rec(object):
     # merge ---------------------------------------------------------------
     def to_dict(self):
         return {'pid': self.pid, 'c': self.c, 'outcomes': sorted(self.outcomes),
-                'samples': self.samples, 'viols': self.viols, 'nviol': self.nviol,
+                'samples': self.samples, 'viols': self.viols, 'nviol': self.nviol, 'sigs': self.sigs,
                 'notes': self.notes}
 
     def merge(self, d):
@@ -154,9 +158,17 @@ class Rec(object):
             if len(self.samples) < MAX_SAMPLES:
                 self.samples.append(s)
         self.nviol += d['nviol']
+        kept = {}
+        for v in self.viols:
+            k = jdump(v['tags'])
+            kept[k] = kept.get(k, 0) + 1
         for v in d['viols']:
-            if len(self.viols) < MAX_VIOL_KEPT:
+            k = jdump(v['tags'])
+            if kept.get(k, 0) < PER_SIG and (len(self.viols) < MAX_VIOL_KEPT or kept.get(k, 0) == 0):
                 self.viols.append(v)
+                kept[k] = kept.get(k, 0) + 1
+        for k, n in d.get('sigs', {}).items():
+            self.sigs[k] = self.sigs.get(k, 0) + n
         for k, v in d['notes'].items():
             self.notes[k] = v
 
